@@ -1,6 +1,740 @@
-//! C14 — not built yet (stub; replaced by the real check).
+//! C14 — merging PSETs never loses information, never panics, and is order-insensitive.
+use std::collections::BTreeMap;
+
+use elements::bitcoin::bip32::{ChildNumber, DerivationPath, Fingerprint, KeySource};
+use elements::encode::serialize;
+use elements::hashes::{hash160, ripemd160, sha256, sha256d, Hash};
+use elements::pset::{Error as PsetError, PartiallySignedTransaction as Pset};
+use elements::taproot::TapNodeHash;
+use elements::{BlockHash, LockTime, Sequence};
+use serde_json::json;
+
 use crate::engine::*;
+use crate::gen::pset::{self as gp, PsetOpts};
+use crate::gen::{self, pool, TxOpts};
+use crate::refimpl::psetraw::{self, RawMap};
+use crate::refimpl::sha256::sha256 as ref_sha256;
+use crate::{ensure, ensure_eq};
+
+pub const KF_XPUB_UNDERFLOW: &str = "merge-xpub-unrelated-sources-of-different-length-panics";
+pub const KF_XPUB_FINGERPRINT: &str = "merge-xpub-equal-path-different-fingerprint-silently-resolved";
+pub const KF_DROPPED_FIELDS: &str = "merge-drops-optional-fields-present-only-in-second-operand";
+pub const KF_UTXO_CLEAR: &str = "merge-witness-utxo-clears-non-witness-utxo";
+
+/// One id-neutral addition: (level, position, field, key index). Its content is a pure function of
+/// (case seed, slot), so two descendants adding the same slot add identical data.
+#[derive(Clone, Copy, Debug, PartialEq, Eq, PartialOrd, Ord, Hash)]
+pub struct Slot {
+    level: u8, // 0 global, 1 input, 2 output
+    pos: u8,
+    field: u8,
+    key: u8,
+}
+
+const N_GLOBAL_FIELDS: u8 = 7;
+const N_INPUT_FIELDS: u8 = 38;
+const N_OUTPUT_FIELDS: u8 = 17;
+
+fn slot_tape(seed: &[u8; 32], s: Slot) -> Vec<u8> {
+    let mut out = Vec::new();
+    let mut ctr = 0u8;
+    while out.len() < 512 {
+        let mut m = seed.to_vec();
+        m.extend_from_slice(&[s.level, s.pos, s.field, s.key, ctr]);
+        out.extend_from_slice(&ref_sha256(&m));
+        ctr += 1;
+    }
+    out
+}
+
+/// the map key for keyed fields depends only on (case seed, level, pos, field, key index)
+fn apply_slot(p: &mut Pset, s: Slot, seed: &[u8; 32]) -> Option<&'static str> {
+    let bytes = slot_tape(seed, s);
+    let t = &mut Tape::new(&bytes);
+    let pl = pool();
+    let rp = |t: &mut Tape| Box::new(pl.rangeproofs[t.below(pl.rangeproofs.len())].clone());
+    let sp = |t: &mut Tape| Box::new(pl.surjproofs[t.below(pl.surjproofs.len())].clone());
+    macro_rules! set_opt {
+        ($field:expr, $val:expr, $label:expr) => {{
+            if $field.is_none() {
+                $field = Some($val);
+                Some($label)
+            } else {
+                None
+            }
+        }};
+    }
+    macro_rules! add_key {
+        ($map:expr, $k:expr, $v:expr, $label:expr) => {{
+            let k = $k;
+            if $map.contains_key(&k) {
+                None
+            } else {
+                $map.insert(k, $v);
+                Some($label)
+            }
+        }};
+    }
+    match s.level {
+        0 => {
+            let g = &mut p.global;
+            match s.field {
+                0 => add_key!(g.xpub, gp::gen_xpub(t), gp::gen_key_source(t), "global.xpub"),
+                1 => {
+                    let sc = gen::gen_tweak(t);
+                    if g.scalars.contains(&sc) {
+                        None
+                    } else {
+                        g.scalars.push(sc);
+                        Some("global.scalars")
+                    }
+                }
+                2 => set_opt!(g.tx_data.tx_modifiable, t.u8(), "global.tx_modifiable"),
+                3 => set_opt!(g.elements_tx_modifiable_flag, t.u8(), "global.elements_tx_modifiable_flag"),
+                4 => {
+                    let l = t.below(12);
+                    add_key!(g.proprietary, gp::gen_prop_key(t, 0), t.bytes(l), "global.proprietary")
+                }
+                5 => {
+                    let l = t.below(12);
+                    add_key!(g.unknown, gp::gen_unknown_key(t, 0), t.bytes(l), "global.unknown")
+                }
+                // id-neutral only when an input's required lock time decides (else the descendant is discarded)
+                _ => set_opt!(g.tx_data.fallback_locktime, LockTime::from_consensus(t.edgy_u32()), "global.fallback_locktime"),
+            }
+        }
+        1 => {
+            let n = p.inputs().len();
+            if n == 0 {
+                return None;
+            }
+            let i = &mut p.inputs_mut()[s.pos as usize % n];
+            match s.field {
+                0 => set_opt!(i.non_witness_utxo, gp::gen_small_tx(t), "in.non_witness_utxo"),
+                1 => set_opt!(i.witness_utxo, gen::gen_txout(t, &TxOpts { big: false, witness: false, ..TxOpts::default() }), "in.witness_utxo"),
+                2 => {
+                    let l = t.range(1, 72);
+                    add_key!(i.partial_sigs, gp::gen_btc_key(t), t.bytes(l), "in.partial_sigs")
+                }
+                3 => set_opt!(i.sighash_type, t.choose(&gp::SCHNORR_TYPES).into(), "in.sighash_type"),
+                4 => set_opt!(i.redeem_script, gen::gen_script(t, false), "in.redeem_script"),
+                5 => set_opt!(i.witness_script, gen::gen_script(t, false), "in.witness_script"),
+                6 => add_key!(i.bip32_derivation, gp::gen_btc_key(t), gp::gen_key_source(t), "in.bip32_derivation"),
+                7 => set_opt!(i.final_script_sig, gen::gen_script(t, false), "in.final_script_sig"),
+                8 => set_opt!(i.final_script_witness, gen::gen_stack(t, false), "in.final_script_witness"),
+                9 => {
+                    let l = t.below(30);
+                    let pre = t.bytes(l);
+                    add_key!(i.ripemd160_preimages, ripemd160::Hash::hash(&pre), pre, "in.ripemd160_preimages")
+                }
+                10 => {
+                    let l = t.below(30);
+                    let pre = t.bytes(l);
+                    add_key!(i.sha256_preimages, sha256::Hash::hash(&pre), pre, "in.sha256_preimages")
+                }
+                11 => {
+                    let l = t.below(30);
+                    let pre = t.bytes(l);
+                    add_key!(i.hash160_preimages, hash160::Hash::hash(&pre), pre, "in.hash160_preimages")
+                }
+                12 => {
+                    let l = t.below(30);
+                    let pre = t.bytes(l);
+                    add_key!(i.hash256_preimages, sha256d::Hash::hash(&pre), pre, "in.hash256_preimages")
+                }
+                13 => set_opt!(i.sequence, Sequence(t.edgy_u32()), "in.sequence"),
+                14 => set_opt!(i.tap_key_sig, gp::gen_schnorr_sig(t), "in.tap_key_sig"),
+                15 => add_key!(i.tap_script_sigs, (gp::gen_xonly(t), gp::gen_leaf_hash(t)), gp::gen_schnorr_sig(t), "in.tap_script_sigs"),
+                16 => match gp::gen_control_block(t) {
+                    Some(cb) => add_key!(i.tap_scripts, cb, (gen::gen_script(t, false), gp::gen_leaf_version(t)), "in.tap_scripts"),
+                    None => None,
+                },
+                17 => add_key!(i.tap_key_origins, gp::gen_xonly(t), (vec![gp::gen_leaf_hash(t)], gp::gen_key_source(t)), "in.tap_key_origins"),
+                18 => set_opt!(i.tap_internal_key, gp::gen_xonly(t), "in.tap_internal_key"),
+                19 => set_opt!(i.tap_merkle_root, TapNodeHash::from_byte_array(t.arr32()), "in.tap_merkle_root"),
+                20 => set_opt!(i.issuance_value_rangeproof, rp(t), "in.issuance_value_rangeproof"),
+                21 => set_opt!(i.issuance_keys_rangeproof, rp(t), "in.issuance_keys_rangeproof"),
+                22 => set_opt!(i.pegin_tx, gp::gen_btc_tx(t), "in.pegin_tx"),
+                23 => {
+                    let l = t.below(60);
+                    set_opt!(i.pegin_txout_proof, t.bytes(l), "in.pegin_txout_proof")
+                }
+                24 => set_opt!(i.pegin_genesis_hash, BlockHash::from_byte_array(t.arr32()), "in.pegin_genesis_hash"),
+                25 => set_opt!(i.pegin_claim_script, gen::gen_script(t, false), "in.pegin_claim_script"),
+                26 => set_opt!(i.pegin_value, t.edgy_u64(), "in.pegin_value"),
+                27 => set_opt!(i.pegin_witness, gen::gen_stack(t, false), "in.pegin_witness"),
+                28 => set_opt!(i.in_utxo_rangeproof, rp(t), "in.in_utxo_rangeproof"),
+                29 => set_opt!(i.in_issuance_blind_value_proof, rp(t), "in.in_issuance_blind_value_proof"),
+                30 => set_opt!(i.in_issuance_blind_inflation_keys_proof, rp(t), "in.in_issuance_blind_inflation_keys_proof"),
+                31 => set_opt!(i.amount, t.edgy_u64(), "in.amount"),
+                32 => set_opt!(i.blind_value_proof, rp(t), "in.blind_value_proof"),
+                33 => set_opt!(i.asset, gen::gen_asset_id(t), "in.asset"),
+                34 => set_opt!(i.blind_asset_proof, sp(t), "in.blind_asset_proof"),
+                35 => set_opt!(i.blinded_issuance, t.u8(), "in.blinded_issuance"),
+                36 => {
+                    let l = t.below(12);
+                    add_key!(i.proprietary, gp::gen_prop_key(t, 1), t.bytes(l), "in.proprietary")
+                }
+                _ => {
+                    let l = t.below(12);
+                    add_key!(i.unknown, gp::gen_unknown_key(t, 1), t.bytes(l), "in.unknown")
+                }
+            }
+        }
+        _ => {
+            let n = p.outputs().len();
+            if n == 0 {
+                return None;
+            }
+            let o = &mut p.outputs_mut()[s.pos as usize % n];
+            match s.field {
+                0 => set_opt!(o.redeem_script, gen::gen_script(t, false), "out.redeem_script"),
+                1 => set_opt!(o.witness_script, gen::gen_script(t, false), "out.witness_script"),
+                2 => add_key!(o.bip32_derivation, gp::gen_btc_key(t), gp::gen_key_source(t), "out.bip32_derivation"),
+                3 => set_opt!(o.tap_internal_key, gp::gen_xonly(t), "out.tap_internal_key"),
+                4 => match gp::gen_tap_tree(t, 5) {
+                    Some((tt, _)) => set_opt!(o.tap_tree, tt, "out.tap_tree"),
+                    None => None,
+                },
+                5 => add_key!(o.tap_key_origins, gp::gen_xonly(t), (vec![gp::gen_leaf_hash(t)], gp::gen_key_source(t)), "out.tap_key_origins"),
+                6 => {
+                    // explicit amount next to an existing commitment (id-neutral: the commitment wins)
+                    if o.amount_comm.is_some() {
+                        set_opt!(o.amount, t.edgy_u64(), "out.amount(beside commitment)")
+                    } else {
+                        None
+                    }
+                }
+                7 => {
+                    if o.asset_comm.is_some() {
+                        set_opt!(o.asset, gen::gen_asset_id(t), "out.asset(beside commitment)")
+                    } else {
+                        None
+                    }
+                }
+                8 => set_opt!(o.value_rangeproof, rp(t), "out.value_rangeproof"),
+                9 => set_opt!(o.asset_surjection_proof, sp(t), "out.asset_surjection_proof"),
+                10 => set_opt!(o.blinding_key, gp::gen_btc_key(t), "out.blinding_key"),
+                11 => set_opt!(o.blinder_index, t.edgy_u32(), "out.blinder_index"),
+                12 => set_opt!(o.blind_value_proof, rp(t), "out.blind_value_proof"),
+                13 => set_opt!(o.blind_asset_proof, sp(t), "out.blind_asset_proof"),
+                14 => {
+                    let l = t.below(12);
+                    add_key!(o.proprietary, gp::gen_prop_key(t, 2), t.bytes(l), "out.proprietary")
+                }
+                15 => {
+                    let l = t.below(12);
+                    add_key!(o.unknown, gp::gen_unknown_key(t, 2), t.bytes(l), "out.unknown")
+                }
+                _ => None,
+            }
+        }
+    }
+}
+
+fn gen_slot(t: &mut Tape) -> Slot {
+    let level = t.choose(&[0u8, 1, 1, 1, 2, 2]);
+    let field = match level {
+        0 => t.below(N_GLOBAL_FIELDS as usize) as u8,
+        1 => t.below(N_INPUT_FIELDS as usize) as u8,
+        _ => t.below(N_OUTPUT_FIELDS as usize) as u8,
+    };
+    Slot { level, pos: t.below(3) as u8, field, key: t.below(3) as u8 }
+}
+
+fn uid(p: &Pset) -> Result<Option<[u8; 32]>, Failure> {
+    Ok(guard::guard("unique_id", 0, || p.unique_id())?.ok().map(|x| x.to_byte_array()))
+}
+
+fn do_merge(a: &Pset, b: &Pset) -> Result<Result<Pset, PsetError>, Failure> {
+    let mut x = a.clone();
+    let y = b.clone();
+    let r = guard::guard("PartiallySignedTransaction::merge", 0, || x.merge(y))?;
+    Ok(r.map(|()| x))
+}
+
+fn raw_maps(p: &Pset) -> Option<Vec<BTreeMap<Vec<u8>, Vec<u8>>>> {
+    let bytes = serialize(p);
+    let maps: Vec<RawMap> = psetraw::split(&bytes)?;
+    Some(maps.into_iter().map(|m| m.into_iter().map(|pr| (pr.key, pr.value)).collect()).collect())
+}
+
+/// keys whose values are combined by rule rather than copied (presence is still required)
+fn combined_by_rule(map_index: usize, key: &[u8]) -> bool {
+    // global tx modifiable (OR of both)
+    map_index == 0 && key == [0x06]
+}
+
+fn describe_key(map_index: usize, nin: usize, key: &[u8]) -> String {
+    let lvl = if map_index == 0 { "global".to_string() } else if map_index <= nin { format!("input {}", map_index - 1) } else { format!("output {}", map_index - 1 - nin) };
+    format!("{} key {}", lvl, hex(key))
+}
+
+/// every key/value of either operand must be in the merged PSET
+fn check_contains(result: &Pset, operand: &Pset, which: &str, ctx: &mut Ctx) -> R {
+    let (Some(r), Some(o)) = (raw_maps(result), raw_maps(operand)) else {
+        return Err(Failure::panic("raw split failed".into(), "src/props/c14.rs".into()));
+    };
+    ensure_eq!(r.len(), o.len(), "merged PSET has a different number of maps");
+    let nin = operand.inputs().len();
+    for (mi, om) in o.iter().enumerate() {
+        for (k, v) in om {
+            match r[mi].get(k) {
+                None => {
+                    let what = describe_key(mi, nin, k);
+                    // listed findings, by exact key
+                    let dropped_known = (mi >= 1 && mi <= nin && (k == &[0x03u8][..] || k == &[0x10u8][..]))
+                        || (mi > nin && (k == &[0x03u8][..] || k.ends_with(&[b'p', b's', b'e', b't', 0x02])))
+                        || (mi == 0 && k == &[0x03u8][..]);
+                    if dropped_known && ctx.is_known(KF_DROPPED_FIELDS) {
+                        continue;
+                    }
+                    if mi >= 1 && mi <= nin && k == &[0x00u8][..] && ctx.is_known(KF_UTXO_CLEAR) {
+                        continue;
+                    }
+                    return Err(Failure::new(format!("merge lost a field that is present in the {} operand: {} (value {})", which, what, hex(&v[..v.len().min(40)]))));
+                }
+                Some(rv) => {
+                    if rv != v && !combined_by_rule(mi, k) {
+                        return Err(Failure::new(format!(
+                            "merge changed the value of {}: operand {} has {}, result has {}",
+                            describe_key(mi, nin, k),
+                            which,
+                            hex(&v[..v.len().min(40)]),
+                            hex(&rv[..rv.len().min(40)])
+                        )));
+                    }
+                }
+            }
+        }
+    }
+    Ok(())
+}
+
+fn pset_eq(a: &Pset, b: &Pset) -> bool {
+    super::c07::pset_eq(a, b)
+}
+
+/// human-readable difference of two PSETs by raw key
+fn diff_maps(a: &Pset, b: &Pset) -> String {
+    let (Some(x), Some(y)) = (raw_maps(a), raw_maps(b)) else { return "raw split failed".into() };
+    let nin = a.inputs().len();
+    let mut out = Vec::new();
+    for mi in 0..x.len().max(y.len()) {
+        let (mx, my) = (x.get(mi), y.get(mi));
+        let empty = BTreeMap::new();
+        let (mx, my) = (mx.unwrap_or(&empty), my.unwrap_or(&empty));
+        for k in mx.keys().chain(my.keys()) {
+            let (vx, vy) = (mx.get(k), my.get(k));
+            if vx != vy {
+                let f = |v: Option<&Vec<u8>>| v.map_or("<absent>".to_string(), |v| hex(&v[..v.len().min(24)]));
+                let d = format!("{}: {} vs {}", describe_key(mi, nin, k), f(vx), f(vy));
+                if !out.contains(&d) {
+                    out.push(d);
+                }
+            }
+        }
+    }
+    out.truncate(6);
+    out.join("; ")
+}
+
+fn families(t: &mut Tape, ctx: &mut Ctx) -> R {
+    let seed = t.arr32();
+    let anc = gp::gen_pset(t, &PsetOpts { extractable: true, ..PsetOpts::default() });
+    let Some(id0) = uid(&anc)? else { return Ok(()) };
+    let k = 2 + t.below(3);
+    let mut desc: Vec<Pset> = Vec::new();
+    let mut slots_used: Vec<Vec<Slot>> = Vec::new();
+    let mut labels: Vec<Vec<&'static str>> = Vec::new();
+    let mut registry: BTreeMap<(usize, Vec<u8>), Vec<u8>> = BTreeMap::new();
+    for _ in 0..k {
+        let mut d = anc.clone();
+        let n = 1 + t.below(8);
+        let mut used = Vec::new();
+        let mut lab = Vec::new();
+        for _ in 0..n {
+            let mut s = gen_slot(t);
+            // normalise the position so that equal effective positions are equal slots
+            let n = match s.level {
+                1 => d.inputs().len(),
+                2 => d.outputs().len(),
+                _ => 1,
+            };
+            s.pos = if n == 0 { 0 } else { (s.pos as usize % n) as u8 };
+            // optional (non-map) fields have one slot each; only map fields are keyed
+            let keyed: &[u8] = match s.level {
+                0 => &[0, 1, 4, 5],
+                1 => &[2, 6, 9, 10, 11, 12, 15, 16, 17, 36, 37],
+                _ => &[2, 5, 14, 15],
+            };
+            if !keyed.contains(&s.field) {
+                s.key = 0;
+            }
+            // apply on a scratch copy and admit the addition only if every raw key it adds is new to
+            // the family or carries the value the family already knows for it ("same key => identical
+            // value, else disjoint keys")
+            let mut scratch = d.clone();
+            if let Some(l) = apply_slot(&mut scratch, s, &seed) {
+                let (Some(before), Some(after)) = (raw_maps(&d), raw_maps(&scratch)) else { continue };
+                let mut ok = before.len() == after.len();
+                let mut fresh: Vec<((usize, Vec<u8>), Vec<u8>)> = Vec::new();
+                if ok {
+                    for (mi, m) in after.iter().enumerate() {
+                        for (k, v) in m {
+                            if before[mi].get(k) != Some(v) {
+                                match registry.get(&(mi, k.clone())) {
+                                    Some(known) if known != v => ok = false,
+                                    _ => fresh.push(((mi, k.clone()), v.clone())),
+                                }
+                            }
+                        }
+                    }
+                }
+                if ok {
+                    for (k, v) in fresh {
+                        registry.insert(k, v);
+                    }
+                    d = scratch;
+                    used.push(s);
+                    lab.push(l);
+                } else {
+                    ctx.class("addition-skipped(key collides with another descendant's)");
+                }
+            }
+        }
+        match uid(&d)? {
+            Some(id) if id == id0 => {
+                desc.push(d);
+                slots_used.push(used);
+                labels.push(lab);
+            }
+            _ => {
+                // an addition that changed the identity: not a descendant of the same transaction
+                ctx.exclude();
+                ctx.class("descendant-discarded(id changed)");
+            }
+        }
+    }
+    if desc.len() < 2 {
+        return Ok(());
+    }
+    // pairwise: merge Ok, id kept, superset of both operands, commutative
+    let (a, b) = (&desc[0], &desc[1]);
+    let ab = match do_merge(a, b)? {
+        Ok(x) => x,
+        Err(e) => return Err(Failure::new(format!("merge of two descendants of one PSET failed: {} ({:?})\n additions a={:?}\n additions b={:?}", e, e, labels[0], labels[1]))),
+    };
+    let ba = match do_merge(b, a)? {
+        Ok(x) => x,
+        Err(e) => return Err(Failure::new(format!("merge of two descendants failed in the other order: {}", e))),
+    };
+    ctx.evals_n(2);
+    ensure!(uid(&ab)? == Some(id0), "merge changed the unique id");
+    check_contains(&ab, a, "first", ctx)?;
+    check_contains(&ab, b, "second", ctx)?;
+    check_contains(&ba, a, "second", ctx)?;
+    check_contains(&ba, b, "first", ctx)?;
+    if !pset_eq(&ab, &ba) {
+        let tolerated = ctx.is_known(KF_UTXO_CLEAR) && {
+            let strip = |p: &Pset| {
+                let mut q = p.clone();
+                for i in q.inputs_mut() {
+                    i.non_witness_utxo = None;
+                }
+                q
+            };
+            pset_eq(&strip(&ab), &strip(&ba))
+        };
+        if !tolerated {
+            return Err(Failure::new(format!(
+                "merge(a,b) != merge(b,a); {}\n additions a={:?}\n additions b={:?}",
+                diff_maps(&ab, &ba),
+                labels[0],
+                labels[1]
+            )));
+        }
+    }
+    // all orders and groupings of the k descendants
+    if desc.len() >= 3 {
+        let fold = |order: &[usize]| -> Result<Option<Pset>, Failure> {
+            let mut acc = desc[order[0]].clone();
+            for &i in &order[1..] {
+                match do_merge(&acc, &desc[i])? {
+                    Ok(x) => acc = x,
+                    Err(_) => return Ok(None),
+                }
+            }
+            Ok(Some(acc))
+        };
+        let n = desc.len();
+        let base_order: Vec<usize> = (0..n).collect();
+        let Some(base) = fold(&base_order)? else { return Err(Failure::new("left fold of the descendants failed".to_string())) };
+        let mut rev = base_order.clone();
+        rev.reverse();
+        let mut rot = base_order.clone();
+        rot.rotate_left(1);
+        for order in [rev, rot] {
+            match fold(&order)? {
+                Some(x) => {
+                    if !pset_eq(&x, &base) && !ctx.is_known(KF_UTXO_CLEAR) {
+                        return Err(Failure::new(format!("merging {} descendants in order {:?} differs from order {:?}; {}", n, order, base_order, diff_maps(&x, &base))));
+                    }
+                }
+                None => return Err(Failure::new(format!("merging descendants in order {:?} failed", order))),
+            }
+            ctx.eval();
+        }
+        // grouping: (d0+d1) + (d2 [+d3])
+        let left = do_merge(&desc[0], &desc[1])?;
+        let right = if n >= 4 { do_merge(&desc[2], &desc[3])? } else { Ok(desc[2].clone()) };
+        if let (Ok(l), Ok(r)) = (left, right) {
+            match do_merge(&l, &r)? {
+                Ok(x) => {
+                    if !pset_eq(&x, &base) && !ctx.is_known(KF_UTXO_CLEAR) {
+                        return Err(Failure::new(format!("grouped merge differs from the left fold; {}", diff_maps(&x, &base))));
+                    }
+                }
+                Err(e) => return Err(Failure::new(format!("grouped merge failed: {}", e))),
+            }
+            ctx.eval();
+        }
+        for d in &desc {
+            check_contains(&base, d, "a folded", ctx)?;
+        }
+        ctx.class("family:>=3-descendants");
+    }
+    // non-triviality: different fields in the same map, or both set an optional field
+    let same_map_diff = slots_used[0].iter().any(|x| slots_used[1].iter().any(|y| x.level == y.level && x.pos == y.pos && x.field == y.field && x.key != y.key));
+    let both_same = slots_used[0].iter().any(|x| slots_used[1].contains(x));
+    if same_map_diff {
+        ctx.class("pair:different-keys-in-same-map");
+    }
+    if both_same {
+        ctx.class("pair:both-added-same-field");
+    }
+    for l in labels.iter().flatten() {
+        ctx.class(&format!("add:{}", l));
+    }
+    if same_map_diff || both_same {
+        ctx.nontrivial(&(hex(&id0), format!("{:?}", slots_used)));
+    }
+    if ctx.wants_sample("family") && (same_map_diff || both_same) {
+        ctx.sample("family", || json!({"descendants": desc.len(), "additions": labels, "inputs": anc.inputs().len(), "outputs": anc.outputs().len()}));
+    }
+    Ok(())
+}
+
+fn different_ids(t: &mut Tape, ctx: &mut Ctx) -> R {
+    let a = gp::gen_pset(t, &PsetOpts { extractable: true, ..PsetOpts::default() });
+    let mut b = a.clone();
+    // change identifying data
+    let what = match t.below(3) {
+        0 if !b.inputs().is_empty() => {
+            let k = t.below(b.inputs().len());
+            let mut x = b.inputs()[k].previous_txid.to_byte_array();
+            x[t.below(32)] ^= 1 << t.below(8);
+            b.inputs_mut()[k].previous_txid = elements::Txid::from_byte_array(x);
+            "prev txid"
+        }
+        1 if !b.outputs().is_empty() => {
+            let k = t.below(b.outputs().len());
+            let mut s = b.outputs()[k].script_pubkey.to_bytes();
+            s.push(0x51);
+            b.outputs_mut()[k].script_pubkey = elements::Script::from(s);
+            "output script"
+        }
+        _ => {
+            b.global.tx_data.version ^= 1 << t.below(32);
+            "tx version"
+        }
+    };
+    let (ia, ib) = (uid(&a)?, uid(&b)?);
+    if ia.is_none() || ib.is_none() || ia == ib {
+        return Ok(());
+    }
+    let r = do_merge(&a, &b)?;
+    ctx.eval();
+    match r {
+        Err(PsetError::UniqueIdMismatch { .. }) => {}
+        Err(e) => return Err(Failure::new(format!("PSETs with different unique ids ({} changed) are refused with {:?} instead of UniqueIdMismatch", what, e))),
+        Ok(_) => return Err(Failure::new(format!("PSETs with different unique ids ({} changed) were merged", what))),
+    }
+    ctx.class(&format!("different-ids:{}", what));
+    ctx.nontrivial(&(what, hex(&ia.unwrap_or([0; 32]))));
+    Ok(())
+}
+
+fn path_of(v: &[u32]) -> DerivationPath {
+    DerivationPath::from(v.iter().map(|n| ChildNumber::from(*n)).collect::<Vec<_>>())
+}
+
+/// all relations between two key sources of the same global xpub
+fn xpub_sources(idx: u64, seed: u64, ctx: &mut Ctx) -> R {
+    let rnd = seeded_bytes(seed, idx, 256);
+    let mut t = Tape::new(&rnd);
+    let xpub = gp::gen_xpub(&mut t);
+    let base: Vec<u32> = (0..(1 + t.below(4))).map(|_| t.edgy_u32()).collect();
+    let fp1 = Fingerprint::from([1, 2, 3, 4]);
+    let fp2 = Fingerprint::from([9, 9, 9, 9]);
+    // relation kinds
+    let rel = idx % 8;
+    let (s1, s2, expect): ((Fingerprint, Vec<u32>), (Fingerprint, Vec<u32>), Option<usize>) = match rel {
+        0 => ((fp1, base.clone()), (fp1, base.clone()), Some(0)),
+        1 => {
+            // s1 is a strict suffix of s2
+            let mut long = vec![t.edgy_u32(), t.edgy_u32()];
+            long.extend(&base);
+            ((fp1, base.clone()), (fp2, long), Some(2))
+        }
+        2 => {
+            let mut long = vec![t.edgy_u32()];
+            long.extend(&base);
+            ((fp2, long), (fp1, base.clone()), Some(1))
+        }
+        3 => {
+            // unrelated, equal length
+            let mut other = base.clone();
+            other[0] ^= 1;
+            ((fp1, base.clone()), (fp1, other), None)
+        }
+        4 => {
+            // unrelated, first shorter
+            let mut long = vec![t.edgy_u32()];
+            long.extend(&base);
+            let l = long.len();
+            long[l - 1] ^= 1;
+            ((fp1, base.clone()), (fp1, long), None)
+        }
+        5 => {
+            // unrelated, first longer
+            let mut long = vec![t.edgy_u32(), t.edgy_u32()];
+            long.extend(&base);
+            let l = long.len();
+            long[l - 1] ^= 1;
+            ((fp1, long), (fp1, base.clone()), None)
+        }
+        6 => ((fp1, base.clone()), (fp2, base.clone()), None),
+        _ => {
+            // empty path vs non-empty: the empty path is a suffix of everything
+            ((fp1, vec![]), (fp2, base.clone()), Some(2))
+        }
+    };
+    let mk = |s: &(Fingerprint, Vec<u32>)| {
+        let mut p = Pset::new_v2();
+        let ks: KeySource = (s.0, path_of(&s.1));
+        p.global.xpub.insert(xpub, ks);
+        p
+    };
+    let (a, b) = (mk(&s1), mk(&s2));
+    let want: Option<KeySource> = expect.map(|w| match w {
+        0 | 1 => (s1.0, path_of(&s1.1)),
+        _ => (s2.0, path_of(&s2.1)),
+    });
+    for (x, y, order) in [(&a, &b, "a.merge(b)"), (&b, &a, "b.merge(a)")] {
+        let r = match do_merge(x, y) {
+            Ok(r) => r,
+            Err(f) => {
+                if f.panic_loc.is_some() && matches!(rel, 4 | 5) && ctx.is_known(KF_XPUB_UNDERFLOW) {
+                    ctx.class("known:xpub-underflow");
+                    continue;
+                }
+                return Err(Failure { msg: format!("{} with xpub key sources {:?} / {:?}: {}", order, s1, s2, f.msg), panic_loc: f.panic_loc });
+            }
+        };
+        ctx.eval();
+        match (&r, &want) {
+            (Ok(m), Some(w)) => {
+                let got = m.global.xpub.get(&xpub);
+                ensure!(got == Some(w), "{}: key sources {:?} / {:?} must be reconciled to the longer one {:?}, got {:?}", order, s1, s2, w, got);
+            }
+            (Err(PsetError::MergeConflict(_)), None) => {}
+            (Ok(m), None) => {
+                if rel == 6 && ctx.is_known(KF_XPUB_FINGERPRINT) {
+                    ctx.class("known:xpub-fingerprint");
+                    continue;
+                }
+                return Err(Failure::new(format!(
+                    "{}: conflicting key sources {:?} / {:?} (relation {}) were silently resolved to {:?} instead of a merge conflict",
+                    order,
+                    s1,
+                    s2,
+                    ["equal", "suffix", "suffix", "unrelated-equal-length", "unrelated-first-shorter", "unrelated-first-longer", "equal-path-different-fingerprint", "empty-path"][rel as usize],
+                    m.global.xpub.get(&xpub)
+                )));
+            }
+            (Err(e), Some(_)) => return Err(Failure::new(format!("{}: reconcilable key sources {:?} / {:?} gave {:?}", order, s1, s2, e))),
+            (Err(e), None) => return Err(Failure::new(format!("{}: conflicting key sources are refused with {:?}, not MergeConflict", order, e))),
+        }
+    }
+    ctx.class(&format!("xpub-relation:{}", rel));
+    ctx.nontrivial(&(rel, base));
+    let _ = LockTime::ZERO;
+    Ok(())
+}
+
+fn repro_underflow() -> bool {
+    std::panic::catch_unwind(|| {
+        let mut t = Tape::new(&[]);
+        let xpub = gp::gen_xpub(&mut t);
+        let mut a = Pset::new_v2();
+        a.global.xpub.insert(xpub, (Fingerprint::from([1; 4]), path_of(&[1])));
+        let mut b = Pset::new_v2();
+        b.global.xpub.insert(xpub, (Fingerprint::from([1; 4]), path_of(&[2, 3])));
+        let _ = b.merge(a);
+    })
+    .is_err()
+}
+fn repro_fingerprint() -> bool {
+    let mut t = Tape::new(&[]);
+    let xpub = gp::gen_xpub(&mut t);
+    let mut a = Pset::new_v2();
+    a.global.xpub.insert(xpub, (Fingerprint::from([1; 4]), path_of(&[1])));
+    let mut b = Pset::new_v2();
+    b.global.xpub.insert(xpub, (Fingerprint::from([2; 4]), path_of(&[1])));
+    a.merge(b).is_ok()
+}
+fn repro_dropped() -> bool {
+    let mut a = Pset::new_v2();
+    a.add_input(elements::pset::Input::default());
+    let mut b = a.clone();
+    b.inputs_mut()[0].sighash_type = Some(elements::SchnorrSighashType::All.into());
+    a.merge(b).is_ok() && a.inputs()[0].sighash_type.is_none()
+}
+fn repro_utxo_clear() -> bool {
+    let mut t = Tape::new(&[]);
+    let mut a = Pset::new_v2();
+    a.add_input(elements::pset::Input::default());
+    let mut b = a.clone();
+    a.inputs_mut()[0].non_witness_utxo = Some(gp::gen_small_tx(&mut t));
+    b.inputs_mut()[0].witness_utxo = Some(elements::TxOut::default());
+    a.merge(b).is_ok() && a.inputs()[0].non_witness_utxo.is_none()
+}
 
 pub fn property() -> Property {
-    Property { id: "C14", rule: "", assumptions: &[], subs: vec![], known: vec![] }
+    Property {
+        id: "C14",
+        rule: "families: an extractable ancestor PSET (C07 generator) and 2..4 descendants, each applying 1..8 id-neutral \
+               additions from a table of 61 slots covering every map and optional field at global / input / output level \
+               (the content of a slot is a function of the case seed, so equal slots carry identical data and different key \
+               indices give disjoint keys); descendants whose unique id changed are discarded and counted. Oracle: merge Ok, \
+               unique id kept, every raw key/value pair of either operand present in the result, merge(a,b) == merge(b,a), all \
+               tried orders / rotations / groupings of >=3 descendants equal. different_ids: a changed prevout / output / tx \
+               version => Err(UniqueIdMismatch). xpub_sources: all 8 relations between two key sources of one xpub (equal, \
+               suffix either way, empty path, unrelated equal / shorter / longer, equal path with other fingerprint) in \
+               both orders: reconciled to the longer one or Err(MergeConflict); never a panic. Non-trivial: operands added \
+               different keys to the same map or both added the same field, or any xpub relation; distinct by slots.",
+        assumptions: &["additions are restricted to fields that do not enter the unsigned transaction id (checked: descendants with a changed id are discarded)"],
+        subs: vec![
+            Sub { name: "families", kind: Kind::Tape { max_len: 7000, quick: 6_000, thorough: 200_000, f: families } },
+            Sub { name: "different_ids", kind: Kind::Tape { max_len: 6000, quick: 3_000, thorough: 60_000, f: different_ids } },
+            Sub { name: "xpub_sources", kind: Kind::Index { count: |t| t.pick(8 * 50, 8 * 2000), exhaustive: false, f: xpub_sources } },
+        ],
+        known: vec![
+            Known { key: KF_XPUB_UNDERFLOW, what: "merge panics when one global xpub has unrelated key sources of different length", repro: repro_underflow },
+            Known { key: KF_XPUB_FINGERPRINT, what: "merge silently resolves equal derivation paths with different fingerprints", repro: repro_fingerprint },
+            Known { key: KF_DROPPED_FIELDS, what: "merge drops sighash_type / sequence / explicit amount / asset / fallback_locktime present only in the second operand", repro: repro_dropped },
+            Known { key: KF_UTXO_CLEAR, what: "merging a witness UTXO into a PSET clears its non-witness UTXO (one direction only)", repro: repro_utxo_clear },
+        ],
+    }
 }
